@@ -8,6 +8,7 @@ from typing import Dict, List, Tuple
 from harness.lib.core import VERIF, Ctx, lean_lock, run_driver, shrink_ops
 from harness.extract import health as x_health
 from harness.rigs import health as rig
+from harness.rigs import health_game as grig
 
 MANIFEST = {
     "text": "Lean 4 proof over an executable model of one node's health bookkeeping (software actual/visible/fix countdown, "
@@ -24,13 +25,19 @@ MANIFEST = {
             "inventory of every writer of a health attribute regenerated from the source (Gen/Health.lean, obligations C14_gen_*) "
             "+ differential rig R-health (real Node in a Simulation, requests and ticks, state diffed after every operation) "
             "+ an implementation-only oracle for the statement's clauses.",
-    "note": "C14-specific: items are addressed by name (unique names assumed, checked per trace); software install/uninstall, file "
-            "creation/copy/move and the database restore's file replacement are not modelled (the last is exercised by an "
-            "implementation-only scenario).",
+    "note": "C14-specific: items are addressed by name. Deepening round: the item set is dynamic (Model/HealthDyn.lean, "
+            "Props/C14Dyn.lean: application install/uninstall requests, SoftwareManager.install/uninstall, create folder/file "
+            "requests, copy_file, the database restore's file replacement) - structural operations leave surviving items "
+            "untouched and new items start unscanned or inherit the visible value of the same-named file they copy/replace; "
+            "visible = shadow along every trace with installs/uninstalls; responses characterised (C14_resp_*). Where two items of "
+            "one parent share a name (created over a deleted one) the by-name restore operations of the model are not the "
+            "code's first-match semantics: the rig ends the comparison of that trace there (counted) and relies on the "
+            "identity-based implementation oracle. Game layer: PrimaiteGymEnv episodes on shipped and generated scenarios are "
+            "checked by the identity-based oracle (visible changes only with a covering scan, fix timing), not by the model.",
     "technique": "Lean 4 theorems over an executable health model; model tied by regenerated tables and a differential rig",
     "design_ref": "5/C14",
 }
-MODULES = ["PrimaiteModel.Lemmas.HealthEff", "PrimaiteModel.Props.C14", "PrimaiteModel.Props.C14Gen"]
+MODULES = ["PrimaiteModel.Lemmas.HealthEff", "PrimaiteModel.Props.C14", "PrimaiteModel.Props.C14Gen", "PrimaiteModel.Props.C14Dyn"]
 EXE = "drv_c14"
 
 
@@ -172,6 +179,8 @@ def replay(rec: dict) -> bool:
         return not rig.timing_oracle(durs=(r["d"],))
     if r.get("oracle") == "db-restore":
         return not rig.db_restore_oracle()
+    if r.get("oracle") == "game":
+        return False  # episodes are regenerated from the seed; re-run the check with the same VERIF_SEED
     return False
 
 
@@ -299,6 +308,35 @@ def run(ctx: Ctx):
         ctx.violation({"kind": "oracle", "clause": bq.get("clause", "?"), "d_class": "0" if bq.get("d") == 0 else ">0"},
                       f"timing clause fails on the implementation: {bq['what']} (duration {bq.get('d')})", {"oracle": "timing", **bq})
     ctx.oblige("oracle:timing clauses hold on the implementation", "oracle", not bad, json.dumps(bad[:3], default=str))
+    # game layer: whole episodes through PrimaiteGymEnv on shipped and generated scenarios, identity-based oracle (testing)
+    from harness.lib import scen
+    from harness.gen import scenario as gscen
+    grng = ctx.rng.fork("game")
+    gcounts: Dict[str, int] = {}
+    gbad: List[dict] = []
+    shipped = scen.shipped()
+    episodes = [(n, scen.load_cfg(shipped[n])) for n in ctx.scale(["data_manipulation", "uc7_config"],
+                ["data_manipulation", "uc7_config", "basic_lan_network_example", "multi_lan_internet_network_example"]) if n in shipped]
+    for k in range(ctx.scale(6, 40)):
+        fam = gscen.FAMILIES[k % len(gscen.FAMILIES)]
+        episodes.append((f"generated:{fam}:{k}", gscen.gen_scenario(grng.fork(f"g{k}"), size=1 + k % 2, family=fam)))
+    for name, cfg in episodes:
+        try:
+            gb = grig.run_episode(cfg, grng, ctx.scale(40, 120), gcounts)
+        except Exception as e:  # building / stepping the environment is C01's and C20's business; counted, not judged here
+            ctx.count("game:episode-raised:" + type(e).__name__)
+            continue
+        ctx.count("game:episodes")
+        for c0 in gb:
+            c0["episode"] = name
+        gbad += gb
+    for k, v in gcounts.items():
+        ctx.count(k, v)
+    for c0 in gbad[:4]:
+        ctx.violation({"kind": "oracle", "layer": "game", "clause": c0["clause"]},
+                      f"game layer, episode {c0['episode']} step {c0['t']}: clause {c0['clause']} fails for {c0['item']}: {json.dumps(c0, default=str)[:300]}",
+                      {"oracle": "game", **c0})
+    ctx.oblige("oracle:game-layer episodes keep visible-only-by-scan and fix timing", "oracle", not gbad, json.dumps(gbad[:3], default=str))
     bad_db = rig.db_restore_oracle()
     for bq in bad_db[:3]:
         ctx.violation({"kind": "oracle", "clause": "db-restore"}, bq["what"], {"oracle": "db-restore", **bq})
